@@ -4,6 +4,7 @@ TIMEOUT = {"quick": 1500, "thorough": 6 * 3600}
 
 NATIVE = ["N-auto", "N-sse2", "N-fb"]
 EMU = ["E-neon", "E-wasm", "E-none"]
+PLAIN = ["N-plain-auto", "N-plain-sse2", "N-plain-fb", "E-neon-plain", "E-wasm-plain"]
 
 DEFAULT_ASSUMPTIONS = [
     "naive reference implementations in harness/core/src/oracle.rs are correct (they never call the crate)",
@@ -24,7 +25,7 @@ def cfgs(quick, thorough=None):
 
 def shards(native_q, native_t=None, emu_q=None, emu_t=None):
     def f(tier, cfg):
-        if cfg.startswith("E-"):
+        if cfg.startswith("E-") or cfg.startswith("N-plain"):
             q = emu_q if emu_q is not None else native_q
             t = emu_t if emu_t is not None else (native_t or q)
         else:
@@ -165,21 +166,25 @@ PLANS = {
                 "4/8-lane checked vectors and on emulated NEON/simd128 vectors whose every load is checked against the registered haystack region "
                 "and whose aligned loads are checked for alignment - exhaustively over alignment x length x match layout, all match bitmaps, all "
                 "small needle/pair/haystack combinations incl. haystacks below min_haystack_len (documented panic caught). "
+                "(3) the same passes in builds WITHOUT debug assertions and overflow checks (native at three levels, emulated NEON/simd128), where no "
+                "debug_assert! can pre-empt a bad load; (4) Miri for five targets over generated case files; (5, thorough) libFuzzer + ASan. "
                 "Non-trivial: the call performs at least one multi-byte load with an unaligned end or a placement against a guard page.",
         "stages": [
-            {"name": "bytes-exh", "cmd": "bytes-exh", "configs": cfgs(NATIVE + EMU), "shards": shards(16, 16, 16, 16)},
-            {"name": "bytes-bitmaps", "cmd": "bytes-bitmaps", "configs": cfgs(["N-auto"] + EMU), "shards": shards(8, 16, 2, 4)},
-            {"name": "bytes-pbt", "cmd": "bytes-pbt", "configs": cfgs(NATIVE + EMU), "shards": shards(4, 16, 2, 8)},
+            {"name": "bytes-exh", "cmd": "bytes-exh", "configs": cfgs(NATIVE + EMU + PLAIN), "shards": shards(16, 16, 8, 16)},
+            {"name": "bytes-bitmaps", "cmd": "bytes-bitmaps", "configs": cfgs(["N-auto", "N-plain-auto", "E-neon-plain", "E-wasm-plain"] + EMU), "shards": shards(8, 16, 2, 4)},
+            {"name": "bytes-pbt", "cmd": "bytes-pbt", "configs": cfgs(NATIVE + EMU + PLAIN), "shards": shards(4, 16, 2, 8)},
             {"name": "iter-pbt", "cmd": "iter-pbt", "configs": cfgs(NATIVE + EMU), "shards": shards(4, 8, 2, 4)},
             {"name": "sub-exh", "cmd": "sub-exh", "configs": cfgs(["N-auto", "N-fb"] + EMU), "shards": shards(16, 16, 16, 16)},
-            {"name": "sub-pbt", "cmd": "sub-pbt", "configs": cfgs(NATIVE + EMU), "shards": shards(8, 16, 4, 8)},
+            {"name": "sub-pbt", "cmd": "sub-pbt", "configs": cfgs(NATIVE + EMU + PLAIN), "shards": shards(8, 16, 4, 8)},
             {"name": "sub-phases", "cmd": "sub-phases", "configs": cfgs(NATIVE), "shards": shards(2, 8)},
             {"name": "sub-short", "cmd": "sub-short", "configs": cfgs(NATIVE + ["E-neon", "E-wasm"]), "shards": shards(2, 8, 2, 4)},
             {"name": "pp-exh", "cmd": "pp-exh", "configs": cfgs(["N-auto"] + EMU), "shards": shards(16, 16, 16, 16)},
-            {"name": "pp-pbt", "cmd": "pp-pbt", "configs": cfgs(["N-auto", "E-neon", "E-wasm"]), "shards": shards(16, 16, 8, 16)},
-            {"name": "eq-exh", "cmd": "eq-exh", "configs": cfgs(["N-auto"]), "shards": shards(8, 16)},
+            {"name": "pp-pbt", "cmd": "pp-pbt", "configs": cfgs(["N-auto", "E-neon", "E-wasm", "N-plain-auto", "E-neon-plain", "E-wasm-plain"]), "shards": shards(16, 16, 8, 16)},
+            {"name": "eq-exh", "cmd": "eq-exh", "configs": cfgs(["N-auto", "N-plain-auto"]), "shards": shards(8, 16, 8, 16)},
             {"name": "eq-pbt", "cmd": "eq-pbt", "configs": cfgs(["N-auto"]), "shards": shards(4, 8), "args": ["--scale", "4"]},
             miri_stage("BISPE", quick=60, thorough=6000),
+            {"name": "fuzz", "kind": "fuzz", "configs": cfgs([]), "targets": ["fz_bytes", "fz_substr"], "runs": {"quick": 0, "thorough": 20000000},
+             "workers": 4, "thorough_only": True},
         ],
     },
     "C09": {
